@@ -317,6 +317,14 @@ def P(e, o):
     if k == 'un':
         if e.extra == 'post':
             return '(%s%s)' % (P(e.a, o), e.op)
+        if o.uf and e.op == '-':
+            # -(a*b/c) == (-a)*b/c exactly (sign-symmetric rounding): the minus goes to the leftmost factor, so that
+            # "-b1*b2" reads the same whether the source language parses it as -(b1*b2) or as (-b1)*b2
+            x = e.a
+            while x.k == 'paren':
+                x = x.a
+            if x.k == 'bin' and x.op in ('*', '/') and x.isd:
+                return P(_negate(x), o)
         return '(%s%s)' % (e.op, P(e.a, o))
     if k == 'call':
         fn = P(e.a, o) if isinstance(e.a, E) else e.a
@@ -391,6 +399,18 @@ def mk_addr(e):
     if e.k == 'deref':
         return e.a
     return E('addr', a=e)
+
+
+def _negate(e):
+    while e.k == 'paren':
+        e = e.a
+    if e.k == 'bin' and e.op in ('*', '/') and e.isd:
+        return E('bin', op=e.op, a=_negate(e.a), b=e.b, isd=True)
+    if e.k == 'un' and e.op == '-' and e.extra != 'post':
+        return e.a
+    if e.k == 'flit':
+        return E('flit', name=e.name[1:] if e.name.startswith('-') else '-' + e.name)
+    return E('un', op='-', a=E('paren', a=e), extra='pre', isd=getattr(e, 'isd', None))
 
 
 def _factors(e, o):
